@@ -222,7 +222,8 @@ class World:
         # fault plans
         self.target_faults = {}
         self.fit_faults = {}
-        self.update_faults = set()
+        self.update_faults = {}
+        self.update_burst = 0
         self.predict_faults = {}
         self.acq_faults = {}
         self.es_predict_calls = 0
@@ -235,7 +236,9 @@ class World:
                 for j in range(int(f.get("len", 1))):
                     self.fit_faults[int(f["k"]) + j] = f.get("kind", "entry")
             elif seam == "update":
-                self.update_faults.add(int(f["k"]))
+                # len > 1: the fallback's own posterior computations (previous hyperparameters on the new
+                # training set) fail as well, len-1 times in a row
+                self.update_faults[int(f["k"])] = max(int(f.get("len", 1)), self.update_faults.get(int(f["k"]), 0))
             elif seam == "predict":
                 self.predict_faults[int(f["k"])] = f.get("kind", "nan_mean")
             elif seam == "acq":
@@ -634,7 +637,13 @@ def install_seams():
             if w.lgf_update_calls in w.update_faults:
                 w.fired("update")
                 w.ev("update_fault", w.lgf_update_calls)
+                w.update_burst = w.update_faults[w.lgf_update_calls] - 1
                 raise np.linalg.LinAlgError("injected: Cholesky failure in GP.update")
+        elif w.in_lgf and not w.in_fit and w.in_sethyp and w.update_burst > 0 and kw.get("compute_posterior", True):
+            w.update_burst -= 1
+            w.fired("update:fallback")
+            w.ev("update_fault_fallback", w.lgf_update_calls)
+            raise np.linalg.LinAlgError("injected: Cholesky failure in GP.update (fallback posterior)")
         return _ORIG["GP.update"](self, *a, **kw)
 
     def set_hyperparameters(self, *a, **kw):
@@ -966,6 +975,7 @@ def _make_lgf_wrapper(orig):
             res = orig(gp, current_point, function_logger, options, optim_state, iteration_history, refit_flag)
         finally:
             w.in_lgf -= 1
+            w.update_burst = 0
         g = res[0]
         w.ev("lgf", w.lgf_calls, bool(refit_flag), int(g.X.shape[0]), res[1])
         if refit_flag:
